@@ -68,14 +68,17 @@ enum Host {
     Characteristic,
     AxisPts,
     StdAxisDescr,
+    /// STD_AXIS as the second axis (Y) of a MAP whose first axis is a FIX_AXIS
+    StdAxisDescrY,
     TypedefMeasurement,
 }
 
-const HOSTS: [Host; 5] = [
+const HOSTS: [Host; 6] = [
     Host::Measurement,
     Host::Characteristic,
     Host::AxisPts,
     Host::StdAxisDescr,
+    Host::StdAxisDescrY,
     Host::TypedefMeasurement,
 ];
 
@@ -140,10 +143,15 @@ fn build(host: Host, dt: DataType, conv: Conv, limits: (f64, f64)) -> A2lFile {
     let (fnc_dt, axis_dt) = match host {
         Host::Characteristic => (dt, DataType::Float64Ieee),
         Host::AxisPts | Host::StdAxisDescr => (DataType::Float64Ieee, dt),
+        Host::StdAxisDescrY => (DataType::Float64Ieee, DataType::Sbyte),
         _ => (DataType::Float64Ieee, DataType::Float64Ieee),
     };
     rl.fnc_values = Some(FncValues::new(1, fnc_dt, IndexMode::RowDir, AddrType::Direct));
     rl.axis_pts_x = Some(AxisPtsDim::new(2, axis_dt, IndexOrder::IndexIncr, AddrType::Direct));
+    if host == Host::StdAxisDescrY {
+        // AXIS_PTS_X has another (narrow) type, AXIS_PTS_Y carries the type under test
+        rl.axis_pts_y = Some(AxisPtsDim::new(3, dt, IndexOrder::IndexIncr, AddrType::Direct));
+    }
     m.record_layout.push(rl);
     let (lo, hi) = limits;
     match host {
@@ -180,6 +188,38 @@ fn build(host: Host, dt: DataType, conv: Conv, limits: (f64, f64)) -> A2lFile {
                 lo,
                 hi,
             ));
+        }
+        Host::StdAxisDescrY => {
+            let mut c = Characteristic::new(
+                "x".into(),
+                "".into(),
+                CharacteristicType::Map,
+                0,
+                "rl".into(),
+                0.0,
+                "NO_COMPU_METHOD".into(),
+                -1.0,
+                1.0,
+            );
+            let mut fix = AxisDescr::new(
+                AxisDescrAttribute::FixAxis,
+                "NO_INPUT_QUANTITY".into(),
+                "NO_COMPU_METHOD".into(),
+                4,
+                0.0,
+                1.0,
+            );
+            fix.fix_axis_par = Some(FixAxisPar::new(0, 1, 4));
+            c.axis_descr.push(fix);
+            c.axis_descr.push(AxisDescr::new(
+                AxisDescrAttribute::StdAxis,
+                "NO_INPUT_QUANTITY".into(),
+                conv_name.into(),
+                4,
+                lo,
+                hi,
+            ));
+            m.characteristic.push(c);
         }
         Host::StdAxisDescr => {
             // the characteristic itself has wide-open limits and no conversion
